@@ -119,7 +119,7 @@ def _run_cases(ctx, cases, tmpdir, with_lean):
     for c in cases:
         b = dc.Built(c, tmpdir)
         try:
-            pdatas, err = dc.real_encode(b.msg, c["cid"], c["max"])
+            pdatas, err = dc.real_encode(b.msg, c["cid"], c["max"], observed=c["seed"] % 3 == 0)
         finally:
             b.close()
         pdvs = dc.pdvs_of(pdatas)
@@ -238,9 +238,23 @@ def e2e(ctx, timeout=5.0, max_pdu=16382):
         ae.add_requested_context(s)
 
     first = lambda r: r[0] if isinstance(r, tuple) else r  # noqa: E731
+
+    def _ident():
+        ds = Dataset()
+        ds.QueryRetrieveLevel = "PATIENT"
+        ds.PatientID = "12345"
+        return ds
+
+    def observer(event):
+        # an audit handler that looks at the outgoing data set: it reads the message's stream to the end
+        ds = getattr(event.message, "data_set", None)
+        if ds is not None:
+            ds.seek(0)
+            ds.read()
     ops = [
         ("c_echo", lambda a: a.send_c_echo()),
         ("c_find", lambda a: list(a.send_c_find(Dataset(), Find))[-1][0]),
+        ("c_find_observed", lambda a: list(a.send_c_find(_ident(), Find))[-1][0]),
         ("c_get", lambda a: list(a.send_c_get(Dataset(), Get))[-1][0]),
         ("c_move", lambda a: list(a.send_c_move(Dataset(), "DEST", Move))[-1][0]),
         ("n_get", lambda a: first(a.send_n_get([0x00100010], Printer, "1.2.3"))),
@@ -259,18 +273,20 @@ def e2e(ctx, timeout=5.0, max_pdu=16382):
         port = srv.server_address[1]
         for name, op in ops:
             case = {"op": "e2e", "send": name, "max_pdu": max_pdu}
-            assoc = ae.associate("127.0.0.1", port)
+            assoc = ae.associate("127.0.0.1", port, evt_handlers=[(evt.EVT_DIMSE_SENT, observer)] if name.endswith("_observed") else [])
             if not assoc.is_established:
                 ctx.note(f"e2e {name}: association not established, sample skipped")
                 continue
             try:
                 try:
+                    with lock:
+                        called.pop(name.replace("_observed", ""), None)
                     status = op(assoc)
                     exc = None
                 except Exception as e:  # noqa: BLE001
                     status, exc = None, f"{type(e).__name__}: {e}"
                 got_status = status is not None and "Status" in status
-                handler_ran = name in called
+                handler_ran = name.replace("_observed", "") in called
                 alive = assoc.is_established
                 ctx.case(case, nontrivial=name not in ("c_echo", "n_delete", "n_get"), kind="e2e:send_" + name)
                 if not (got_status and handler_ran and alive):
